@@ -66,7 +66,11 @@ func thoroughExtras(c *Ctx, p *Property) {
 			c.OKTrivial(p.ID+".X2", "seed:"+id, 0, "recorded as not detectable by this rule set (see DESIGN.md §5); not used as a control")
 			continue
 		}
-		tmp, err := os.MkdirTemp("", "dcpverif-control-")
+		// a fixed scratch path per property: the Go build cache then serves the unchanged packages of every replay
+		// instead of growing by one copy of the module per seed
+		tmp := filepath.Join(os.TempDir(), "dcpverif-control-"+p.ID)
+		_ = os.RemoveAll(tmp)
+		err := os.MkdirAll(tmp, 0o755)
 		if err != nil {
 			c.Undecided(p.ID+".X2", "seed:"+id, 0, "cannot create scratch directory: %v", err)
 			continue
